@@ -61,11 +61,20 @@ func GenShapeZoo(idx int) *ir.Request {
 		{Name: "force", Number: 2, Kind: "bool", Ann: ir.Ann{Query: &ir.Query{Name: "force"}}},
 		{Name: "reason", Number: 3, Kind: "string", Ann: ir.Ann{Query: &ir.Query{Name: "why"}}},
 	}}
-	f.Messages = []*ir.Message{leaf, stamps, textV, imageV, gone, mkEvent("OneofFlatZ", true), mkEvent("OneofNestedZ", false), find, del}
+	// well-known and ordinary message fields under every empty_behavior
+	emptyZ := &ir.Message{Name: "EmptyStampZ", Fields: []*ir.Field{
+		{Name: "started_at", Number: 1, Kind: "message", TypeName: tsType, Ann: ir.Ann{EmptyBehavior: "NULL"}},
+		{Name: "ended_at", Number: 2, Kind: "message", TypeName: tsType, Ann: ir.Ann{EmptyBehavior: "OMIT"}},
+		{Name: "meta", Number: 3, Kind: "message", TypeName: P + "LeafZ", Ann: ir.Ann{EmptyBehavior: "NULL"}},
+		{Name: "kept", Number: 4, Kind: "message", TypeName: P + "LeafZ", Ann: ir.Ann{EmptyBehavior: "PRESERVE"}},
+		{Name: "label", Number: 5, Kind: "string"},
+	}}
+	f.Messages = []*ir.Message{leaf, stamps, textV, imageV, gone, emptyZ, mkEvent("OneofFlatZ", true), mkEvent("OneofNestedZ", false), find, del}
 	f.Services = []*ir.Service{{Name: "Zoo", BasePath: "/zoo", Methods: []*ir.Method{
 		{Name: "PutStamps", Input: P + "PlainStamps", Output: P + "PlainStamps", Config: &ir.HTTPConfig{Path: "/stamps", Method: "POST"}},
 		{Name: "PutFlat", Input: P + "OneofFlatZ", Output: P + "OneofFlatZ", Config: &ir.HTTPConfig{Path: "/flat", Method: "POST"}},
 		{Name: "PutNested", Input: P + "OneofNestedZ", Output: P + "OneofNestedZ", Config: &ir.HTTPConfig{Path: "/nested", Method: "PUT"}},
+		{Name: "PutEmpty", Input: P + "EmptyStampZ", Output: P + "EmptyStampZ", Config: &ir.HTTPConfig{Path: "/empty", Method: "POST"}},
 		{Name: "Find", Input: P + "Int64Find", Output: P + "LeafZ", Config: &ir.HTTPConfig{Path: "/find", Method: "GET"}},
 		{Name: "Drop", Input: P + "Int64Drop", Output: P + "LeafZ", Config: &ir.HTTPConfig{Path: "/drop", Method: "DELETE"}},
 	}}}
